@@ -352,6 +352,42 @@ def gen_cases(ctx):
     return cases
 
 
+# Programs in which a LOCAL label that has the name of an earlier global label is the last name of its segment, behind a
+# statement whose size differs between the passes (the reference resolves to the global in pass 1 and to the local in
+# pass 2, or a 6809/TMS340 forward form shrinks).  The unchanged tree rejects them ("Label moved"); whatever accepts
+# them must not have changed a name's address between the passes.
+SHADOW_FOCUS = [
+    ("6502", ".6502\n.org 0x10\ncount:\n  db 0x11\n.org 0x1000\n.scope\nentry:\n  lda count\n  rts\ncount:\n  db 0x77\n.ends\n"),
+    ("65816", ".65816\n.org 0x10\ncount:\n  db 0x11\n.org 0x1000\n.scope\nentry:\n  lda count\n  rts\ncount:\n  db 0x77\n.ends\n"),
+    ("68hc08", ".68hc08\n.org 0x10\ncount:\n  db 0x11\n.org 0x1000\n.scope\nentry:\n  lda count\n  rts\ncount:\n  db 0x77\n.ends\n"),
+    ("6809", ".6809\n.org 0x2000\ndone:\n  rts\n.org 0x1000\n.scope\nentry:\n  jmp done\n  lda table,x\n  rts\ndone:\n  clra\n  rts\n.ends\n.org 0x20\ntable:\n  db 1, 2, 3\n"),
+    ("6502", ".6502\n.org 0x20\nptr:\n  db 1\n.org 0x1000\n.func f\n  ldx ptr\n  inx\nptr:\n  db 2\n.endf\n"),
+    ("6502", ".6502\n.org 0x30\nv:\n  db 1\n.org 0x1000\n.scope\n  lda v\n  sta v\nv:\n  db 2\n.ends\n.org 0x2000\n.scope\n  lda v\nv:\n  db 3\n.ends\n"),
+]
+
+
+def shadow_focus(ctx, orc, stats):
+    ans = ctx.impl([nvlib.prog_line(src, "1") for _, src in SHADOW_FOCUS])
+    acc = 0
+    for (cpu, src), a in zip(SHADOW_FOCUS, ans):
+        orc["cases"] += 1
+        d = nvlib.parse_prog(a)
+        if d.get("died"):
+            orc["failures"].append({"sig": "C02:crash:%s:shadow-focus" % cpu, "input": src, "expected": "exit 0/1",
+                                    "observed": d["raw"][:200], "what": "assembler crashed"})
+            continue
+        if d["st"] != 0:
+            continue
+        acc += 1
+        moved = [(n1, a1, a2) for (n1, a1, s1, e1), (n2, a2, s2, e2) in zip(d["p1_list"], d["syms_list"]) if n1 == n2 and a1 != a2]
+        if moved or len(d["p1_list"]) != len(d["syms_list"]):
+            orc["failures"].append({"sig": "C02:table-changed:%s:shadow-focus" % cpu, "input": src,
+                                    "expected": "every name at its pass-1 address (or the program rejected)",
+                                    "observed": "accepted; " + ", ".join("%s: pass 1 %x, pass 2 %x" % m for m in moved)[:300],
+                                    "what": "a name moved between the passes and the program was accepted"})
+    stats["shadow_focus"] = {"programs": len(SHADOW_FOCUS), "accepted": acc}
+
+
 def oracle(ctx, orc, focus=None):
     cases = gen_cases(ctx)
     lines = []
@@ -392,6 +428,7 @@ def oracle(ctx, orc, focus=None):
             for sig, exp, obs, what in fs:
                 orc["failures"].append({"sig": sig, "input": src, "expected": exp, "observed": obs, "what": what,
                                         "replay_line": line, "optimize": opt})
+    shadow_focus(ctx, orc, stats)
     orc["stats"] = stats
     orc["distinct_nontrivial"] = len(set(src for src, info in cases if any(c == "fwd-small" for _, _, c in info["stmts"])))
     orc["samples"] = [{"source": cases[k][0][:300]} for k in range(0, len(cases), max(1, len(cases) // 4))][:4]
